@@ -17,6 +17,15 @@ through self) and total (class based) are named like attributes of the class;
 they are invoked from OAL expressions, statements, where clauses, loop
 conditions, other operations, and from python.
 
+Every slot with parameters also has bodies that write a local / loop /
+selection / creation variable named like one of their own parameters and read
+param.<name> afterwards (also behind a recursive invocation); they are explored
+as single deviations from the default assignment.  An external entity CALC has
+six bridges with different bodies, signatures and return forms (value, bare
+return behind a side effect, boolean, string, invocations of a sibling bridge);
+each is invoked from python (in both orders) and from OAL expressions,
+`bridge x = ...` / `bridge ...` statements, a where clause and a loop condition.
+
 History family: for every body of the derived attribute (total ones and
 partial ones that are erroneous on some populations) every executable sequence
 of HIST_LEN steps over {python read, read by an OAL function, create, write N,
@@ -45,6 +54,10 @@ ASSUMPTIONS = [
     'the instance delivers under that name and the operation is reached through the class (type(c).count(c, by=1))',
     'the entries over constants and class C (no body slot varies them) run on the default call system and on every single deviation '
     'from it, with a second component alive, and on the permuted model texts',
+    '`param.x` designates the parameter x of the running invocation for the whole invocation; a variable x of the body (assigned, '
+    'loop variable, selection or creation result) is another thing, and writing it leaves param.x as it was passed',
+    'every bridge of an external entity runs its own body, whatever the number and order of the bridges of that entity; extra bridges '
+    'are invoked with exactly their own parameters',
     'histories: a read of a derived attribute whose body is erroneous on the current data (attribute access through an empty '
     'selection, division by zero in a nested call) has no defined outcome -- it is performed and whatever it delivers or raises is '
     'ignored; every read the reference accepts, before or after such a rejected read, must deliver the value computed from the '
@@ -85,6 +98,15 @@ BODIES = {
         ('F9', [('selfrom', 'many', 'as_', 'A', None, True),
                 ('foreach', 'a', 'as_', [IF(B('==', ('field', V('a'), 'N'), P('n')), [RET(('field', V('a'), 'N'))])], True),
                 RET(B('-', I(0), I(1)))]),
+        # a local variable / loop variable / selection variable named like the parameter is another thing than param.n
+        # (single deviations only, see SINGLE_ONLY); F10 recursive: param.n is read after the variable was written and after the nested call
+        ('F10', [ASG(V('n'), B('-', P('n'), I(1))), IF(B('<', V('n'), I(0)), [RET(I(0))]),
+                 ASG(V('r'), F_('f', n=V('n'))), RET(B('+', B('+', B('*', V('r'), I(100)), B('*', P('n'), I(10))), V('n')))]),
+        ('F11', [('selfrom', 'many', 'as_', 'A', None, True), ASG(V('t'), I(0)),
+                 ('foreach', 'n', 'as_', [ASG(V('t'), B('+', B('+', V('t'), ('field', V('n'), 'N')), P('n')))], True),
+                 ('selfrom', 'any', 'n', 'A', B('==', ('field', ('selected',), 'N'), P('n')), True),
+                 IF(('un', 'not_empty', V('n')), [ASG(V('t'), B('+', V('t'), I(500)))]),
+                 RET(B('+', B('*', V('t'), I(10)), P('n')))]),
     ],
     'g': [   # g(n: integer, m: integer)
         ('G1', [ASG(V('x'), B('*', P('n'), I(2))), ASG(V('y'), P('m')), RET(B('+', V('x'), V('y')))]),
@@ -92,6 +114,9 @@ BODIES = {
         ('G3', [IF(B('<=', P('n'), I(0)), [RET(I(0))]), RET(B('+', I(1), F_('f', n=B('-', P('n'), I(1)))))]),
         ('G4', [RET(B('-', P('m'), P('n')))]),
         ('G5', [RET(B('/', P('m'), P('n')))]),          # partial: only in the history family (see N_PRODUCT)
+        # variables named like both parameters, each written with the value of the other parameter (single deviation only)
+        ('G6', [ASG(V('m'), P('n')), ASG(V('n'), B('+', P('m'), I(5))),
+                RET(B('+', B('+', B('*', V('n'), I(1000)), B('*', V('m'), I(100))), B('+', B('*', P('n'), I(10)), P('m'))))]),
     ],
     'h': [   # h(b: boolean, n: integer)
         ('H1', [IF(P('b'), [RET(P('n'))], [], [RET(B('-', I(0), P('n')))])]),
@@ -99,6 +124,11 @@ BODIES = {
                 RET(('un', 'cardinality', V('as_')))]),
         ('H3', [ASG(V('i'), I(0)), ('while', B('<', V('i'), F_('g', n=I(1), m=I(1))), [ASG(V('i'), B('+', V('i'), I(1)))], True),
                 RET(V('i'))]),
+        # a boolean and an integer variable named like the parameters, written inside a loop (single deviation only)
+        ('H4', [ASG(V('b'), ('un', 'not', P('b'))), ASG(V('n'), I(0)),
+                ('while', B('<', V('n'), I(3)), [ASG(V('n'), B('+', V('n'), I(1))), ASG(V('b'), ('un', 'not', V('b')))], True),
+                IF(P('b'), [RET(B('+', B('*', V('n'), I(10)), P('n')))]),
+                IF(V('b'), [RET(B('-', I(0), P('n')))]), RET(B('-', I(0), V('n')))]),
     ],
     'op': [  # A.op(k: integer), instance based
         ('O1', [RET(B('+', SF('N'), P('k')))]),
@@ -116,6 +146,10 @@ BODIES = {
         # an attribute read to the LEFT of a call that writes that attribute (operands are evaluated left to right)
         ('O7', [IF(B('<=', P('k'), I(0)), [RET(SF('N'))]), ASG(SF('N'), B('+', SF('N'), I(1))),
                 RET(B('+', SF('N'), B('*', ('icall', SELF, 'op', [('k', B('-', P('k'), I(1)))]), I(100))))]),
+        # a variable named like the parameter, written before a recursive invocation through self (single deviation only)
+        ('O8', [IF(B('<=', P('k'), I(0)), [RET(SF('N'))]), ASG(V('k'), B('-', P('k'), I(1))),
+                ASG(V('r'), ('icall', SELF, 'op', [('k', V('k'))])),
+                RET(B('+', B('+', B('*', V('r'), I(100)), B('*', P('k'), I(10))), V('k')))]),
     ],
     'cop': [  # A.cop(k: integer), class based
         ('C1', [RET(B('*', P('k'), I(2)))]),
@@ -123,6 +157,9 @@ BODIES = {
                 RET(('icall', V('a'), 'op', [('k', P('k'))]))]),
         ('C3', [('create', 'a', 'A'), ASG(('field', V('a'), 'N'), P('k')), RET(('field', V('a'), 'N'))]),
         ('C4', [IF(B('<=', P('k'), I(1)), [RET(I(1))]), RET(B('*', ('ncall', 'A', 'cop', [('k', B('-', P('k'), I(1)))]), P('k')))]),
+        # an instance created into a variable named like the parameter (single deviation only)
+        ('C5', [('create', 'k', 'A'), ASG(('field', V('k'), 'N'), B('+', P('k'), I(10))),
+                RET(B('+', B('*', ('field', V('k'), 'N'), I(100)), P('k')))]),
     ],
     'D': [   # derived attribute A.D: expression assigned to self.D
         ('D1', B('*', SF('N'), I(2))),
@@ -137,6 +174,8 @@ BODIES = {
         ('B1', [RET(B('+', P('p'), I(1)))]),
         ('B2', [RET(F_('f', n=P('p')))]),
         ('B3', [ASG(V('x'), P('p')), RET(('ncall', 'A', 'cop', [('k', V('x'))]))]),
+        # a variable named like the parameter, written twice (single deviation only)
+        ('B4', [ASG(V('p'), B('+', P('p'), I(1))), ASG(V('p'), B('*', V('p'), I(2))), RET(B('+', B('*', V('p'), I(100)), P('p')))]),
     ],
 }
 # class C (fixed bodies).  count and total are attributes AND operations of the class: `c.count` reads the attribute,
@@ -161,6 +200,19 @@ CONSTANTS = [('TEN', 'integer', '10', 10), ('GREETING', 'string', 'hello', 'hell
              ('ZERO', 'integer', '0', 0), ('NO', 'boolean', 'false', False), ('BLANK', 'string', '', ''), ('NIL', 'real', '0.0', 0.0)]
 B2_BODY = [RET(B('+', P('p'), I(100)))]          # EE2::b
 FB_BODY = [RET(B('+', P('p'), I(1000)))]         # ::b
+# external entity CALC (fixed bodies): several bridges with different bodies, parameters and return forms -- a value, a bare
+# return behind a side effect, a boolean, invocations of a sibling bridge; the bridge without side effect comes last
+NC = lambda ee, name, **kw: ('ncall', ee, name, sorted(kw.items()))
+CALC_BRIDGES = [
+    ('inc', [('p', 'integer')], 'integer', [RET(B('+', P('p'), I(1)))]),
+    ('note', [('p', 'integer')], 'void', [('create', 'a', 'A'), ASG(('field', V('a'), 'N'), P('p')), ASG(('field', V('a'), 'Name'), ('str', 'note')),
+                                          ('return', None)]),
+    ('flag', [('p', 'integer')], 'boolean', [RET(B('>', P('p'), I(1)))]),
+    ('twice', [('p', 'integer')], 'integer', [('callassign', 'bridge', V('x'), NC('CALC', 'inc', p=P('p'))),
+                                              RET(B('+', B('*', V('x'), I(10)), NC('CALC', 'inc', p=V('x'))))]),
+    ('label', [('who', 'string'), ('p', 'integer')], 'string', [IF(B('>', P('p'), I(0)), [RET(B('+', ('str', 'hello '), P('who')))]), RET(P('who'))]),
+    ('same', [('p', 'integer')], 'integer', [RET(P('p'))]),
+]
 PARAMS = {'f': [('n', 'integer')], 'g': [('n', 'integer'), ('m', 'integer')], 'h': [('b', 'boolean'), ('n', 'integer')],
           'op': [('k', 'integer')], 'cop': [('k', 'integer')], 'b': [('p', 'integer')]}
 ENUM = ['Red', 'Green', 'Blue']
@@ -168,6 +220,20 @@ SLOTS = ['f', 'g', 'h', 'op', 'cop', 'D', 'b']
 # number of leading bodies of a slot that take part in the call systems of systems(); the bodies behind them are partial
 # (erroneous for some data) and are explored by the history family only
 N_PRODUCT = {'g': 4, 'D': 4}
+# bodies that take part in the call systems as single deviations from the default assignment only (both tiers): a local /
+# loop / selection / creation variable named like a parameter of the body
+SINGLE_ONLY = {'f': ['F10', 'F11'], 'g': ['G6'], 'h': ['H4'], 'op': ['O8'], 'cop': ['C5'], 'b': ['B4']}
+
+
+def product_size(slot):
+    """Number of leading bodies of the slot that take part in the product of call systems."""
+    n = N_PRODUCT.get(slot, len(BODIES[slot]))
+    return min([n] + [i for i, (label, _) in enumerate(BODIES[slot]) if label in SINGLE_ONLY.get(slot, ())])
+
+
+def single_only_systems():
+    base = dict((s, 0) for s in SLOTS)
+    return [dict(base, **{s: i}) for s in SLOTS for i, (label, _) in enumerate(BODIES[s]) if label in SINGLE_ONLY.get(s, ())]
 
 
 def derived_statements(name, derived, as_return=False):
@@ -194,9 +260,9 @@ def body_text(stmts):
 def systems(tier):
     '''Assignments slot -> body index.  quick: all single deviations from the default assignment plus the product of a sub-menu;
     thorough: the full product.'''
-    sizes = [N_PRODUCT.get(s, len(BODIES[s])) for s in SLOTS]
+    sizes = [product_size(s) for s in SLOTS]
     if tier == 'thorough':
-        return [dict(zip(SLOTS, combo)) for combo in itertools.product(*[range(n) for n in sizes])]
+        return [dict(zip(SLOTS, combo)) for combo in itertools.product(*[range(n) for n in sizes])] + single_only_systems()
     out = []
     seen = set()
 
@@ -213,6 +279,8 @@ def systems(tier):
     sub = dict(f=[1, 2, 7], g=[0, 2], h=[0, 1], op=[2, 4], cop=[1, 3], D=[2, 3], b=[1, 2])
     for combo in itertools.product(*[sub[s] for s in SLOTS]):
         add(dict(zip(SLOTS, combo)))
+    for d in single_only_systems():
+        add(d)
     return out
 
 
@@ -349,6 +417,16 @@ def build_bp_model(system):
     s_bparm2 = m.new('S_BPARM', Name='p')
     relate(s_bparm2, s_brg2, 21)
     relate(s_bparm2, dt('integer'), 22)
+    # an external entity with several bridges
+    s_ee3 = pe(m.new('S_EE', Name='CALC', Key_Lett='CALC'))
+    for name, params, rty, body in CALC_BRIDGES:
+        brg = m.new('S_BRG', Name=name, Suc_Pars=1, Action_Semantics_internal=body_text(body))
+        relate(brg, s_ee3, 19)
+        relate(brg, dt(rty), 20)
+        for pname, pty in params:
+            bp_ = m.new('S_BPARM', Name=pname)
+            relate(bp_, brg, 21)
+            relate(bp_, dt(pty), 22)
     fb = pe(m.new('S_SYNC', Name='b', Suc_Pars=1, Action_Semantics_internal=body_text(FB_BODY)))
     relate(fb, dt('integer'), 25)
     fbp = m.new('S_SPARM', Name='p')
@@ -391,6 +469,8 @@ def reference_callables(system):
                                              kind='operation' if C_INSTANCE_BASED[name] else 'class_operation')
     bridges = {('EE', 'b'): E.Callable('b', PARAMS['b'], BODIES['b'][system['b']][1], kind='bridge'),
                ('EE2', 'b'): E.Callable('b', PARAMS['b'], B2_BODY, kind='bridge')}
+    for name, params, _, body in CALC_BRIDGES:
+        bridges[('CALC', name)] = E.Callable(name, params, body, kind='bridge')
     functions['b'] = E.Callable('b', PARAMS['b'], FB_BODY)
     derived = {('A', 'D'): E.Callable('D', [], derived_statements('D', BODIES['D'][system['D']][1], as_return=True), kind='derived', owner='A')}
     return dict(functions=functions, operations=operations, bridges=bridges, derived=derived,
@@ -460,6 +540,10 @@ def entries():
     return out + extra_entries()
 
 
+CALC_PY_CALLS = [['inc', dict(p=1)], ['note', dict(p=5)], ['flag', dict(p=2)], ['flag', dict(p=0)], ['twice', dict(p=3)],
+                 ['label', dict(who='amy', p=1)], ['label', dict(p=0, who='bo')], ['same', dict(p=9)], ['inc', dict(p=7)]]
+
+
 def extra_entries():
     '''Entries over the parts of the model that no body slot varies: the constants modeled with values python takes as false,
     and class C whose operations are named like its attributes.  They run on the default call system and on every single
@@ -468,7 +552,23 @@ def extra_entries():
     C = lambda name: V(name)
     mkc = lambda var, count, total=0: [('create', var, 'C'), ASG(('field', V(var), 'count'), I(count)), ASG(('field', V(var), 'total'), I(total))]
     out.append(('py:operations named like attributes', [], 'pyclash', None))
+    out.append(('py:bridges of one external entity', [2, 0], 'pycalc', CALC_PY_CALLS))
+    out.append(('py:bridges of one external entity, last first', [], 'pycalc', CALC_PY_CALLS[::-1]))
     callers = [
+        ('oal:bridges of one external entity in an expression',
+         [ASG(V('p'), I(4)), RET(B('+', B('+', B('*', NC('CALC', 'inc', p=I(1)), I(100000)), B('*', NC('CALC', 'twice', p=I(2)), I(100))),
+                                   B('+', NC('CALC', 'same', p=I(7)), V('p'))))]),
+        ('oal:bridges of one external entity as statements',
+         [ASG(V('x'), I(1)), ('callassign', 'bridge', V('y'), NC('CALC', 'inc', p=V('x'))), ('call', 'bridge', NC('CALC', 'note', p=V('y'))),
+          ('call', None, NC('CALC', 'note', p=I(8))), ('callassign', 'bridge', V('z'), NC('CALC', 'same', p=V('y'))),
+          ('callassign', 'bridge', V('s'), NC('CALC', 'label', who=('str', 'amy'), p=V('x'))),
+          IF(NC('CALC', 'flag', p=V('y')), [ASG(V('x'), B('+', V('x'), I(4)))]),
+          IF(B('!=', V('s'), ('str', 'hello amy')), [RET(B('-', I(0), I(1)))]),
+          RET(B('+', B('+', B('*', V('x'), I(10000)), B('*', V('y'), I(100))), V('z')))]),
+        ('oal:bridges of one external entity in a where clause and a loop condition',
+         [('selfrom', 'many', 'as_', 'A', NC('CALC', 'flag', p=('field', ('selected',), 'N')), True), ASG(V('i'), I(0)),
+          ('while', B('and', B('<', NC('CALC', 'inc', p=V('i')), I(4)), B('<', V('i'), I(9))), [ASG(V('i'), B('+', V('i'), I(1)))], True),
+          RET(B('+', B('*', ('un', 'cardinality', V('as_')), I(100)), V('i')))]),
         ('oal:constants 0, false, "", 0.0 in expressions',
          [ASG(V('x'), C('ZERO')), ASG(V('y'), B('+', C('TEN'), C('ZERO'))), ASG(V('s'), B('+', B('+', C('BLANK'), C('GREETING')), C('BLANK'))),
           ASG(V('r'), B('+', C('NIL'), C('HALF'))),
@@ -592,6 +692,8 @@ def run_reference(system, entry):
         value = [ev.run(ops[('C', 'count')].body, dict(by=2), c1), ev.read_attr(c1, 'count'), ev.read_attr(c2, 'count'),
                  ev.run(ops[('C', 'bump')].body, dict(by=1), c2), ev.read_attr(c2, 'count'),
                  ev.run(ops[('C', 'total')].body, dict(k=1000)), ev.read_attr(c1, 'total')]
+    elif kind == 'pycalc':
+        value = [ev.run(ev.bridges[('CALC', name)].body, dict(kw)) for name, kw in payload]
     elif kind == 'oal':
         # constants are visible by their bare name
         value = ev.run([ASG(V(k), _lit(v)) for k, v in ()] + list(payload))
@@ -657,6 +759,9 @@ def run_real(bp_model, system, entry, other_bp=None):
             # an attribute value lives in the instance, the operation of the same name in its class
             c1, c2 = dom.new('C', count=5, total=7), dom.new('C', count=1, total=30)
             value = [type(c1).count(c1, by=2), c1.count, c2.count, c2.bump(by=1), c2.count, dom.find_class('C').total(k=1000), c1.total]
+        elif kind == 'pycalc':
+            calc = dom.find_symbol('CALC')
+            value = [getattr(calc, name)(**kw) for name, kw in payload]
         elif kind == 'oal':
             value = dom.find_symbol('main')()
     pop_after = [[i.N, i.Name] for i in dom.select_many('A')] + [[i.count, i.total] for i in dom.select_many('C')]
@@ -727,7 +832,7 @@ def system_task(ctx, task):
 def two_component_task(ctx, task):
     '''The entries on a component of system s1 while a component of system s2 (built later) is alive.'''
     tier, pairs = task
-    es = [e for e in entries() if e[2] in ('pyfunc', 'pycop', 'pybridge', 'pyop', 'pysymbols', 'pysamename', 'pyclash', 'oal')]
+    es = [e for e in entries() if e[2] in ('pyfunc', 'pycop', 'pybridge', 'pyop', 'pysymbols', 'pysamename', 'pyclash', 'pycalc', 'oal')]
     for s1, s2 in pairs:
         bp1, bp2 = build_bp_model(s1), build_bp_model(s2)
         ctx.count('component_pairs')
@@ -741,7 +846,7 @@ def component_pairs(tier):
     base = dict((s, 0) for s in SLOTS)
     devs = []
     for s in SLOTS:
-        for i in range(1, N_PRODUCT.get(s, len(BODIES[s]))):
+        for i in range(1, product_size(s)):
             devs.append(dict(base, **{s: i}))
     if tier == 'quick':
         devs = [d for d in devs if any(d[s] == 1 for s in SLOTS)] + [dict(base, f=2, g=2, h=1, op=2, cop=2, D=1, b=2)]
@@ -1031,8 +1136,11 @@ def coverage(ctx):
                     constants=dict((name, value) for name, _, value, _ in CONSTANTS),
                     class_C=dict(attributes=['Id', 'count', 'total'], operations=dict((n, 'instance' if C_INSTANCE_BASED[n] else 'class') for n in C_BODIES)),
                     row_permutations='tables of up to four rows: every order; longer ones: the reversed table, every rotation, every exchange of two neighbouring rows',
-                    systems='full product' if ctx.thorough else 'default + every single deviation + product of a sub-menu',
+                    systems='full product + the single deviations to the bodies of SINGLE_ONLY' if ctx.thorough else 'default + every single deviation + product of a sub-menu',
                     permuted_tables=PERM_TABLES,
+                    bodies_explored_as_single_deviations_only=SINGLE_ONLY,
+                    external_entity_CALC=dict(bridges=[(n, [pn for pn, _ in ps], rt) for n, ps, rt, _ in CALC_BRIDGES],
+                                              python_calls=len(CALC_PY_CALLS), orders='as listed and reversed'),
                     bodies_outside_the_call_system_product=dict((s, [b[0] for b in BODIES[s][n:]]) for s, n in N_PRODUCT.items()),
                     history=dict(length=HIST_LEN[ctx.tier], alphabet=HIST_ALPHABET, initial_population='one instance i0 with N = 0',
                                  max_instances=2, systems=[BODIES['D'][s['D']][0] for s in history_systems()])),
